@@ -25,6 +25,7 @@ CONSTANTS Mods,       \* module names that may occur in descriptions
           PNames,     \* parameter names that may occur in descriptions
           ExtraM,     \* module names never described (unknown module)
           ExtraP,     \* accessible names that are never parameters ("" = bare module is always offered)
+          CmdP,       \* the ones among them which are commands of every described module
           Wires,      \* wire value ids offered in messages
           ValidW,     \* the ones the parameter's datatype imports; the rest is rejected
           ENames,     \* error class names offered in error reports
@@ -106,10 +107,12 @@ Matches(c, k) == \/ c.level = NodeL
 
 RKey(msg) == IF msg.action \in {"reply", "error_read"} THEN <<"reply", msg.ident>>
              ELSE IF msg.action = "changed" THEN <<"changed", msg.ident>> ELSE NoReq
+IsCmd(id, d) == id[2] \in CmdP /\ \E k \in d : k[1] = id[1]
 RelAllowed(msg, d, w) ==
   IF RKey(msg) \notin w THEN {FALSE}
-  ELSE IF Resolve(msg.action, msg.ident, d) = NoKey \/ Handled(msg, d) THEN {TRUE}
-  ELSE BOOLEAN       \* malformed reply to a waiting request: not decided here
+  ELSE IF Handled(msg, d) THEN {TRUE}
+  ELSE IF Resolve(msg.action, msg.ident, d) = NoKey /\ ~IsCmd(msg.ident, d) THEN {TRUE}
+  ELSE BOOLEAN       \* malformed reply / reply naming a command while a request waits: not decided here
 
 Init == /\ desc \in InitDescs
         /\ cache = [k \in AllKeys |-> Undef]
